@@ -711,9 +711,9 @@ class Remoter(tyming.Tymee):
 
     def refresh(self):
         """
-        Restart tymer
+        Restart tymer from current tyme so it measures time since last activity
         """
-        self.tymer.restart()
+        self.tymer.start()
 
 
     def receive(self):
